@@ -564,7 +564,8 @@ def execute(sc, ctx):
         tmax = max(f.t_stop for f in fr3)
         extra = stg.Frame(fchans=g["fchans"], tchans=fr3[0].tchans, df=g["df"], dt=g["dt"], fch1=g["fch1"], ascending=g["ascending"],
                           t_start=(tmax + 77.0) if mb != "insert0" else (min(f.t_start for f in fr3) - 500.0), seed=5)
-        c3 = stg.OrderedCadence(fr3, order="ABACADAEAFAG") if mb != "plain_setitem" else stg.Cadence(fr3)
+        c3 = (stg.OrderedCadence(fr3, order="ABACADAEAFAG" * (len(fr3) // 12 + 2)) if mb != "plain_setitem"
+              else stg.Cadence(fr3))
         p1, t1, f1, b1, _ = make_components(sc, fr3[0].tchans, fmin)
         c3.add_signal(p1, t1, f1, b1, **kw)
         if mb in ("setitem", "plain_setitem"):
